@@ -36,12 +36,12 @@ func (concurrent) Indices(tier string) int {
 		if tier == "thorough" {
 			return 12000
 		}
-		return 1600
+		return 1120
 	}
 	if tier == "thorough" {
 		return 160000
 	}
-	return 12000
+	return 9000
 }
 
 // FreeMode reports whether this process runs part B (free-running tasks for the race detector).
@@ -59,7 +59,7 @@ func (concurrent) Rule() string {
 		"solo baseline (same task alone on a fresh world) and a public-API digest of all shared objects must be unchanged at every yield " +
 		"and at the end. Part B: the same task sets run free (no harness synchronisation between start and join) 3 times each in a " +
 		"-race build at GOMAXPROCS 16 and 2; any race report fails, and outputs are compared with the solo baseline as well. One index " +
-		"in 16 also takes the solo baseline of every task that involves Go types in a fresh process (`ionsim solo`): the literal " +
+		"in 16 (quick tier: 32) also takes the solo baseline of every task that involves Go types in a fresh process (`ionsim solo`): the literal " +
 		"'run alone', free of whatever package-level state (type-keyed registries, lookup tables) earlier tasks left in the worker. " +
 		"Distinct by hash of (task set, pick list); non-trivial = at least one switch away from a still-runnable task."
 }
@@ -898,7 +898,11 @@ const pristineEvery = 16
 
 // pristineIndex spreads those indices over the residue classes (workers take indices by i mod W).
 func pristineIndex(i int) bool {
-	return (i+i/pristineEvery)%pristineEvery == 0 && os.Getenv("IONSIM_NO_PRISTINE") == ""
+	every := pristineEvery
+	if os.Getenv("IONSIM_TIER") == "quick" {
+		every = 2 * pristineEvery // a process start costs about 50 ms here
+	}
+	return (i+i/every)%every == 0 && os.Getenv("IONSIM_NO_PRISTINE") == ""
 }
 
 func (s concurrent) checkPristine(c *Ctx, cs concCase, got [][]string, where string) {
